@@ -265,7 +265,7 @@ func solveAll(obls []*Obligation, qdir string, timeout time.Duration) {
 	for _, ob := range obls {
 		ob.Ctx.sliceIdx() // build the slicing index sequentially (it is shared by the workers)
 	}
-	sem := make(chan struct{}, 8)
+	sem := make(chan struct{}, 12)
 	var wg sync.WaitGroup
 	for _, ob := range obls {
 		wg.Add(1)
@@ -275,20 +275,26 @@ func solveAll(obls []*Obligation, qdir string, timeout time.Duration) {
 			defer func() { <-sem }()
 			q := ob.slicedQuery()
 			if ob.Cover {
-				// cover checks only need one solver; unknown is acceptable, unsat is vacuity
-				ob.Result = runQuery(qdir, ob.Name, q, timeout/2, false, []string{"z3-new"})
-				if ob.Result.Status != "sat" && ob.Result.Status != "unsat" {
-					// quantified assumptions usually leave the solver undecided; the quantifier-free part of
-					// all assumptions (unsliced) is decidable: unsat there is a definite contradiction
-					r2 := runQuery(qdir, ob.Name+".ground", groundOnly(ob.queryText()), timeout/2, false, []string{"z3-new"})
-					switch r2.Status {
-					case "unsat":
-						r2.Time += ob.Result.Time
-						ob.Result = r2
-					case "sat":
-						ob.Result.Status = "sat"
-						ob.Result.Solver += "(ground)"
-						ob.Result.Time += r2.Time
+				// cover checks only need one solver; unknown is acceptable, unsat is vacuity.
+				// The quantifier-free part of all assumptions (unsliced) is decided first, it is cheap: unsat there is a
+				// definite contradiction. When it is satisfiable the full query gets a short budget: unsat = vacuity,
+				// sat = reachable, undecided (the usual outcome with quantified assumptions) = the ground answer stands.
+				rg0 := runQuery(qdir, ob.Name+".ground", groundOnly(ob.queryText()), timeout/2, false, []string{"z3-new"})
+				switch rg0.Status {
+				case "unsat":
+					ob.Result = rg0
+				default:
+					short := timeout / 6
+					if short < 2*time.Second {
+						short = 2 * time.Second
+					}
+					ob.Result = runQuery(qdir, ob.Name, q, short, false, []string{"z3-new"})
+					if ob.Result.Status != "sat" && ob.Result.Status != "unsat" {
+						if rg0.Status == "sat" {
+							ob.Result.Status = "sat"
+							ob.Result.Solver += "(ground)"
+						}
+						ob.Result.Time += rg0.Time
 					}
 				}
 				if ob.Result.Status == "unsat" && ob.BaseLen > 0 {
